@@ -382,3 +382,17 @@ def standard_proof_part(res, pid, coq_ok, coq_log):
     if problems:
         return False, "; ".join(problems)
     return True, ""
+
+
+def corpus_lines(name):
+    """Committed minimised cases (one case line per line) that run before the generated ones."""
+    d = os.path.join(CORPUS, name)
+    out = []
+    if os.path.isdir(d):
+        for f in sorted(os.listdir(d)):
+            if f.endswith(".txt"):
+                for ln in open(os.path.join(d, f)):
+                    ln = ln.strip()
+                    if ln and not ln.startswith("#"):
+                        out.append(ln)
+    return out
